@@ -16,7 +16,8 @@ OUTSIDE = [
     'moduli wider than the stated widths for the bit-level kernels '
     '(FactorHighAndLowBitsEqual, CheckLowHammingWeight)',
     'values (not divisibility) of LLL / modular-exponentiation results',
-    'CheckKeypairDenylist generator (SHA-1/AES): only the p*q == n guard',
+    'CheckKeypairDenylist generator (SHA-1/AES): only the p*q == n guard '
+    '(generator = arbitrary pair per (seed, size))',
     'string formatting inside AttachFactors for symbolic values (C16 covers '
     'merging on concrete sets)',
 ]
